@@ -352,9 +352,9 @@ pub fn run(ctx: &Ctx) {
          program whose query binds a constant. Distinct = distinct case JSON.",
     );
     ctx.assume("metamorphic oracle: variants are compared with a fresh-engine run of the unpermuted program");
-    let n = ctx.cases(1200, 30_000);
+    let n = ctx.cases(3000, 45_000);
     ctx.run_part("iql_engine_order_and_history", n, strategy, |c, o| check(ctx, c, o, false));
-    let n2 = ctx.cases(300, 8_000);
+    let n2 = ctx.cases(600, 10_000);
     ctx.run_part("storage_registration_order", n2, strategy, |c, o| check_storage(ctx, c, o));
 }
 
